@@ -683,11 +683,43 @@ PROFILES["acct"] = acct_profile
 _BOOT_BASE = PROFILES["boot"]
 
 
+def _respawn_in_joint_start(seed):
+    """template (every 6th seed): a joint start finds a higher-priority watcher ACTIVE but short of workers (its worker
+    died, the periodic check reaped it and the re-spawn raised; the next check has not come yet) and
+    a lower-priority one stopped: the first re-spawns, the second starts -- consecutive watchers, the global warmup delay apart."""
+    import random
+    rng = random.Random(seed)
+    prios = rng.sample([0, 1, 2, 3, 5], 3)
+    ws = [{"name": "w%d" % (i + 1), "np": 1, "G": 0.1, "W": rng.choice([0.0, 0.1]), "priority": prios[i]} for i in range(3)]
+    order = sorted(range(3), key=lambda i: -prios[i])
+    hi = ws[order[rng.choice([0, 0, 1])]]["name"]
+    lows = [ws[i]["name"] for i in order if prios[i] < [w for w in ws if w["name"] == hi][0]["priority"]]
+    s = [{"op": "boot"}, {"op": "advance", "dt": 1.0}]
+    for n in rng.sample(lows, rng.randint(1, len(lows))):
+        s.append({"op": "req", "cmd": "stop", "props": {"name": n, "waiting": True}})
+        s.append({"op": "advance", "dt": 0.3})
+    s.append({"op": "die", "sel": [hi, 0]})
+    s.append({"op": "spawnfault", "kinds": ["RuntimeError"]})
+    s.append({"op": "tick", "n": 1})
+    s.append({"op": "advance", "dt": 0.2})
+    props = {"waiting": rng.random() < 0.5}
+    pat = rng.choice(["w*", "*", None, None])
+    if pat:
+        props["name"] = pat
+    s.append({"op": "req", "cmd": "start", "props": props})
+    s.append({"op": "advance", "dt": 4.0})
+    s.append({"op": "end", "xprobe": True, "passes": 1})
+    return {"seed": seed, "watchers": ws, "check_delay": 5.0, "warmup_delay": rng.choice([0.3, 0.5]),     # (> every W)
+            "stubborn": [], "obeys": [True], "instant_death": False, "script": s}
+
+
 def boot_profile(seed):
     """Random boot scenarios, plus (every 3rd seed) a template: once the daemon is up, several watchers are started or
     restarted TOGETHER by one request with a name pattern (or without a name); their order in the configuration is
     not their priority order."""
     import random
+    if seed % 6 == 1:
+        return _respawn_in_joint_start(seed)
     if seed % 3 != 2:
         return scenario.gen_scenario(seed, _BOOT_BASE)
     rng = random.Random(seed)
